@@ -33,7 +33,7 @@ class C19(Prop):
 
     def gen(self, tier, rng):
         maxn = 9
-        reps = 6 if tier == "quick" else 40
+        reps = 6 if tier == "quick" else 120
         g = 0
         for n in range(1, maxn + 1):
             for _ in range(reps):
